@@ -527,7 +527,7 @@ def _enumerate(tier, seed):
     """yield cases; the most discriminating first"""
     banks = list(BANKS_QUICK) + list(BANKS_EXTRA)
     lengths = _lengths(tier)
-    nvar = 5 if tier == "quick" else 40
+    nvar = 5 if tier == "quick" else 30
     counter = 0
     for var in range(nvar):
         for li, (L, pad) in enumerate(lengths):
@@ -703,10 +703,23 @@ def replay(case: dict):
             return False, "; ".join("%s: %s" % f for f in fails)
         return True, "default frame length %s (DFT %s): all %s filters keep a non-zero bin" % (info["frame_length"], info["dft_size"], info["num_filts"])
     case = dict(case)
+    # defaults so that a case built from a solver model (a few integers) can be replayed
+    case.setdefault("bank", BANKS_QUICK[0])
+    case.setdefault("frame_style", "centered")
+    case.setdefault("kaldi_shift", False)
+    case.setdefault("window", "default")
+    case.setdefault("window_seed", case.get("seed", 0))
+    case.setdefault("use_log", False)
+    case.setdefault("use_power", True)
+    case.setdefault("include_energy", True)
+    case.setdefault("seed", 0)
+    case.setdefault("amp", 1.0)
+    if "pad" not in case:
+        case["pad"] = case.get("dft_size", case["frame_length"]) != case["frame_length"]
     if "dft_size" not in case:
         case["dft_size"] = _dft_size(case["frame_length"], case["pad"])
-    if "pad" not in case:
-        case["pad"] = case["dft_size"] != case["frame_length"]
+    case.setdefault("frame_shift", max(1, case["frame_length"] // 3))
+    case.setdefault("N", 3 * case["frame_length"] + 5)
     fails, info = _check_case(case, ctx)
     if fails:
         return False, "; ".join("%s: %s" % f for f in fails)
